@@ -126,7 +126,7 @@ def build_traces(wd, path, tier, seed):
             x = np.round(x, 6) + rng.choice([0.5e-6, -0.5e-6, 0.0], size=n)       # close to rounding boundaries
         dt = float([10.0 ** rng.uniform(-4, 2), 1.0, 1.5, 10.0, 100.0, 0.01, 0.9999, 0.0001, 2.0][tid % 9])
         dt = min(max(dt, 1e-4), 100.0)
-        label = ["m1", "rec 7 east", "a b  c", "  padded column name", "station 12 EW   ", "x"][int(rng.integers(6))]
+        label = ["m1", "rec 7 east", "a b  c", "  padded column name", "station 12 EW   ", "x", "D\u00fczce 1999 NS", "\u795e\u6238 EW"][int(rng.integers(8))]
         cls = eqsig.AccSignal if tid % 2 else eqsig.Signal
         if tid % 4 == 3:
             loader.save_values_and_dt(ffp, x if tid % 8 == 3 else x.tolist(), dt, label)     # array-level saver, positional order
@@ -138,6 +138,11 @@ def build_traces(wd, path, tier, seed):
             with warnings.catch_warnings():
                 warnings.simplefilter("ignore")
                 v, dt2, lab, cls_ok, o, m = load(k, ffp)
+                if "m=" in LOADERS[k] and rng.integers(2):
+                    # any load factor, not only whole numbers: small, fractional, g
+                    m = float(rng.choice([0.01, -0.25, 9.81, 1.0e-3, 2.5, -0.001]))
+                    o = loader.load_sig(ffp, m=m) if LOADERS[k].startswith("load_sig") else loader.load_asig(ffp, load_label="label" in LOADERS[k], m=m)
+                    v, dt2, lab = o.values, o.dt, o.label
                 v = np.asarray(v, dtype=float)
                 n2 = int(v.size) if v.ndim > 0 else -1
                 y = np.atleast_1d(v)
